@@ -16,6 +16,7 @@ var PreludeClauses = []string{
 	"errors.Is(e, t): true if e == t; false if e == nil && t != nil; otherwise uninterpreted",
 	"multierr.Append(a, b): a if b == nil; b if a == nil; non-nil if either is non-nil; leaves(Append(a,b)) = leaves(a) ++ leaves(b) for leaf errors",
 	"sync/atomic.Bool Load/Store as a plain boolean cell (atomicity itself assumed)",
+	"A-panicnil: a panicking call panics with a non-nil value, i.e. recover() is non-nil while panicking (Go >= 1.21 semantics, where panic(nil) is a *runtime.PanicNilError); under a go directive < 1.21 a recover handler that tests `recovered != nil` lets panic(nil) pass as a normal return - outside the model",
 }
 
 func listElemKey() string { return "container_list.Element" }
